@@ -95,7 +95,7 @@ pub fn reentrant(kind: u64) -> Vec<u64> {
                     bad += 1
                 }
             }
-            Ev::BadDealloc { .. } | Ev::UnknownDealloc { .. } => bad += 1,
+            Ev::BadDealloc { .. } | Ev::UnknownDealloc { .. } | Ev::Overrun { .. } => bad += 1,
             _ => {}
         }
     }
@@ -229,7 +229,7 @@ pub fn zst(kind: u64) -> Vec<u64> {
     }));
     talloc::record(false);
     let evs = talloc::drain();
-    let bad = evs.iter().filter(|e| matches!(e, Ev::BadDtor { .. } | Ev::BadRead { .. } | Ev::BadDealloc { .. } | Ev::UnknownDealloc { .. })).count() as u64;
+    let bad = evs.iter().filter(|e| matches!(e, Ev::BadDtor { .. } | Ev::BadRead { .. } | Ev::BadDealloc { .. } | Ev::UnknownDealloc { .. } | Ev::Overrun { .. })).count() as u64;
     let dt = evs.iter().filter(|e| matches!(e, Ev::Dtor { .. })).count() as u64;
     vec![r.is_err() as u64, SEP, SEP, during, ZDROPS.load(SeqCst), dt, bad]
 }
@@ -363,7 +363,7 @@ pub fn run1(kind: u64, n: usize, k: u64) -> Vec<u64> {
                     bad += 1
                 }
             }
-            Ev::BadDealloc { .. } | Ev::UnknownDealloc { .. } => bad += 1,
+            Ev::BadDealloc { .. } | Ev::UnknownDealloc { .. } | Ev::Overrun { .. } => bad += 1,
             _ => {}
         }
     }
